@@ -1,5 +1,6 @@
 import Yomm2.Props.C13
 import Yomm2.Proofs.RoundTrip
+import Yomm2.Proofs.RoundTripInstall
 /-!
 # C13 — the encoded v-tables decode, in place, to the v-tables update built
 -/
@@ -21,7 +22,7 @@ theorem C13_vtables_round_trip (c : Compiled) (cells : List Nat) (dt : List DWor
     (hgood : ∀ row ∈ c.vtbl, ∀ e ∈ row, EntryGood c starts e)
     (hfirst : ∀ k, k < c.vtbl.length → c.slots.first.get k < stopBit) :
     ∃ d, decode (encode c) (msOf c) cells = .ok d ∧ d.vtbls = c.vtbl.flatten.map (toD c starts) ∧
-      d.vptrs = vpsFrom c 0 c.vtbl 0 ∧ d.dtbls = dt :=
+      d.vptrs = vpsFrom c 0 c.vtbl 0 ∧ d.dtbls = dt ∧ d.ss = ssOf (msOf c) (encode c).slots :=
   decode_encode c cells dt starts hdt hcells hnd hgood hfirst
 
 /-- the head room is what the replay of the cursors needs: after every entry the write cursor (in
@@ -32,5 +33,56 @@ theorem C13_headroom_suffices (S : Nat) (row : List Entry) (a : Cur) (e : Entry)
   have h2 : 4 * (stepCur S a e).dec - (S + (stepCur S a e).enc) ≤ (stepCur S a e).hr := by
     simp only [stepCur]; omega
   omega
+
+/-- **C13, the whole round trip**: for every compiled registry whose numbers fit the 16-bit fields of the
+    emitted structure (group, method and cell indices, first slots) and that `install_gv` accepts: decoding
+    the emitted data rebuilds exactly the words `install_gv` wrote into `dispatch_data` (dispatch tables of
+    the multi-methods, then every v-table), the same v-table pointers (biased by the first slot, also when
+    it is not 0, also for classes without entries) and the same `slots_strides` arrays — so every call
+    resolves over the decoded tables as it does after `update` (`resolve` reads nothing else) -/
+theorem C13_decode_encode_is_install (c : Compiled) (inst : Installed) (hinst : install c = .ok inst)
+    (cells : List Nat) (hcells : cells.length = c.vtbl.length) (hnd : cells.Nodup)
+    (hlen : c.methods.length = c.outs.length)
+    (har : ∀ m ∈ c.methods, 1 ≤ m.vp.length)
+    (hstr : ∀ mo ∈ c.methods.zip c.outs, mo.2.strides.length = mo.1.vp.length - 1)
+    (htab : ∀ mo ∈ c.methods.zip c.outs, TableGood mo)
+    (hgood : ∀ row ∈ c.vtbl, ∀ e ∈ row, EntryGood c (dtStarts (c.methods.zip c.outs) 0) e ∧ e.vp < arOf c e.method)
+    (hfirst : ∀ k, k < c.vtbl.length → c.slots.first.get k < stopBit) :
+    ∃ d, decode (encode c) (msOf c) cells = .ok d ∧ d.toInstalled.data = inst.data ∧
+      d.toInstalled.vptr = inst.vptr ∧ d.toInstalled.ss = inst.ss :=
+  decode_encode_eq_install c inst hinst cells hcells hnd hlen har hstr htab hgood hfirst
+
+/-- calls read the installed image through `data` and `ss` only: two images that agree there resolve
+    every call alike -/
+theorem resolve_depends_on_data_and_ss (a b : Installed) (hd : a.data = b.data) (hs : a.ss = b.ss)
+    (mi : Nat) (args : List (Kind × Int)) : resolve a mi args = resolve b mi args := by
+  have hread : ∀ i, readWord a i = readWord b i := by intro i; unfold readWord; rw [hd]
+  have hnext : ∀ (ss : List Nat) (ar : Nat) (rest : List (Kind × Int)) (k d : Nat),
+      resolveMultiNext a ss ar k rest d = resolveMultiNext b ss ar k rest d := by
+    intro ss ar rest
+    induction rest with
+    | nil => intro k d; rfl
+    | cons x xs ih =>
+      intro k d
+      obtain ⟨kind, v⟩ := x
+      simp only [resolveMultiNext, hread, ih]
+  have hfirst : ∀ (ss : List Nat) (ar : Nat) (rest : List (Kind × Int)),
+      resolveMultiFirst a ss ar rest = resolveMultiFirst b ss ar rest := by
+    intro ss ar rest
+    induction rest with
+    | nil => rfl
+    | cons x xs ih =>
+      obtain ⟨kind, v⟩ := x
+      simp only [resolveMultiFirst, hread, hnext, ih]
+  have huni : ∀ (ss : List Nat) (rest : List (Kind × Int)), resolveUni a ss rest = resolveUni b ss rest := by
+    intro ss rest
+    induction rest with
+    | nil => rfl
+    | cons x xs ih =>
+      obtain ⟨kind, v⟩ := x
+      simp only [resolveUni, hread, ih]
+  unfold resolve
+  rw [hs]
+  simp only [huni, hfirst]
 
 end Yomm2.Props.C13
